@@ -57,6 +57,9 @@ def run(ctx):
         packs = [e for e in events if e["e"] == "Pack" and any(t["k"] != "plain" for t in e["txs"])]
         for e in packs[:2]:
             ctx.sample({"recorded_pack": {k: e[k] for k in ("b", "par", "p", "now", "slot", "score", "txs", "flav", "post")}})
+    # 6. the loop around the packer: PackerLoop.tla / Solo.tla, the real Node.Run packer loop in real 2 s slots, the real
+    #    solo engine (on demand and interval)
+    pc.packer_loop_and_solo(ctx, acc)
     _evidence(ctx, acc, nbeh)
 
 
@@ -89,6 +92,10 @@ def _evidence(ctx, acc, nbeh):
         "the endorsement); evictions of offline validators are beyond the horizon; a single listed authority is excluded "
         "(authority.Update is a no-op on an unlinked entry)",
         "now-dependent rejection (future block) is excluded by construction: the simulator's genesis lies in the past",
+        "packer loop / solo: time.Now() is hard-wired in packer_loop.go and cmd/thor/solo, so both are bound in REAL time (2 s block interval, "
+        "launch time near now, ~16 s per recording); exact rules (one own block per parent and slot, never before second when - T/2 + 1, own "
+        "blocks and solo blocks judged by a cold consensus instance) decide alone, the stale-parent and lateness rules carry 3 s / 2.5 s "
+        "margins and need a second recording to confirm; PackerLoop.tla assumes the loop is never late for its 1 s look at the best block",
     ]
     if not ctx.replay and cov["distinct_nontrivial"] < 2:
         raise Infra("fewer than 2 distinct non-trivial scenarios were exercised")
